@@ -80,6 +80,10 @@ func runM4Sequence(vb *vbuf, init int, seq [][]int) {
 		in := append([]byte(nil), frames[step]...)
 		u := s.write(unit.PayloadMPEG4Video(in), int64(3000*(step+1)))
 		r.Eval(1)
+		if u == nil && s.panicked != "" {
+			vb.add("mpeg4video:panic", fmt.Sprintf("mpeg4video frames %v: WriteUnit panicked on frame %d: %s", names, step, vcommon.Short(s.panicked, 300)), rep)
+			return
+		}
 		if u == nil {
 			vb.add("mpeg4video:unit-rejected", fmt.Sprintf("mpeg4video frames %v: frame %d rejected", names, step), rep)
 			return
@@ -96,11 +100,13 @@ func runM4Sequence(vb *vbuf, init int, seq [][]int) {
 		if !bytes.Equal(got, want) {
 			vb.add("mpeg4video:payload-mismatch", fmt.Sprintf("mpeg4video config %x, frame [%s]: delivered %x, reference %x (frames %v)",
 				before, names[step], got, want, names), rep)
+			return
 		}
 		desc := s.outFormat().(*format.MPEG4Video).Config
 		if !bytes.Equal(desc, cur) {
 			vb.add("mpeg4video:description-not-most-recent", fmt.Sprintf("mpeg4video config %x, frame [%s]: description reports %x, most recent configuration is %x (frames %v)",
 				before, names[step], desc, cur, names), rep)
+			return
 		}
 		if !bytes.Equal(in, frames[step]) {
 			vb.add("mpeg4video:input-mutated", fmt.Sprintf("mpeg4video frame [%s]: input bytes modified", names[step]), rep)
@@ -193,6 +199,11 @@ func runAV1(thorough bool) int64 {
 			rep := map[string]any{"codec": "av1", "obus": names}
 			u := s.write(unit.PayloadAV1(in), int64(3000*(li+1)))
 			r.Eval(1)
+			if u == nil && s.panicked != "" {
+				vbs[ci].add("av1:panic", fmt.Sprintf("av1 temporal unit %v: WriteUnit panicked: %s", names, vcommon.Short(s.panicked, 300)), rep)
+				s.panicked = ""
+				continue
+			}
 			if u == nil {
 				vbs[ci].add("av1:unit-rejected", fmt.Sprintf("av1 temporal unit %v rejected", names), rep)
 				continue
@@ -238,7 +249,7 @@ func ruleText(thorough bool) string {
 			"Each sequence on a fresh real Stream; distinct = (codec, parameter state before, unit shape by NALU class, parameters prepended, description changed, delivered length)"
 	}
 	return "H.264 (9 NALU symbols) and H.265 (12 symbols): x initial description parameters {none, all}: every single access unit of <=3 NALUs and " +
-		"every pair (a1 of <=2 NALUs, a2 of <=3); " +
+		"every pair (a1 of <=2 [H.265: 1] NALUs, a2 of <=3); " +
 		"MPEG-4 Video (7 segment symbols: VOP, GOV, VOS, VOL1, VOL2, VO, stray byte): every frame of <=4 segments and every pair (<=2, <=4) x initial config {none, VOS+VO+VOL1}; " +
 		"AV1 (8 OBU symbols, 2 temporal delimiter forms): every temporal unit of <=4 OBUs. " +
 		"Each sequence on a fresh real Stream; distinct = (codec, parameter state before, unit shape by NALU class, parameters prepended, description changed, delivered length)"
